@@ -1,0 +1,33 @@
+//go:build verif
+
+package tls
+
+// VerifC26Export is one evaluation of a TLS 1.3 exporter.
+type VerifC26Export struct {
+	Label   string
+	Context []byte
+	Length  int
+}
+
+// VerifC26ExportKeyingMaterial13Seq builds ONE exporter from the master secret
+// and the transcript of msgs, as the handshake does after the server Finished,
+// then keeps hashing the later messages into the same transcript (as the
+// handshake does with the client's second flight) and evaluates the exporter
+// for every call in order.
+func VerifC26ExportKeyingMaterial13Seq(suiteID uint16, master []byte, msgs, later [][]byte, calls []VerifC26Export) ([][]byte, error) {
+	s := cipherSuiteTLS13ByID(suiteID)
+	tr := verifC26Transcript(s, msgs)
+	ekm := s.exportKeyingMaterial(master, tr)
+	for _, m := range later {
+		tr.Write(m)
+	}
+	out := make([][]byte, 0, len(calls))
+	for _, c := range calls {
+		b, err := ekm(c.Label, c.Context, c.Length)
+		if err != nil {
+			return out, err
+		}
+		out = append(out, b)
+	}
+	return out, nil
+}
